@@ -475,7 +475,10 @@ def oracle(desc, tree):
 
         if match(list(children), 0):
             return None
-        return fails[0] if fails else f"count: children of {path} do not match relations of {ptype!r}"
+        if not fails:
+            return f"count: children of {path} do not match relations of {ptype!r}"
+        specific = [f for f in fails if not f.startswith("count:")]
+        return (specific or fails)[0]
 
     return conf(tree._root._children or [], "__root__", [])
 
